@@ -23,9 +23,9 @@ Proof. intros (l & -> & F) H. apply Forall_app; auto. Qed.
 Definition flushed (E : env) (s : state) : Prop :=
   match e_mode E with Buf _ => bw_buf (st_out s) = [] \/ bw_err (st_out s) = true | _ => True end.
 
-Lemma touch_log E s n : st_log (touch E s n) = st_log s /\ st_out (touch E s n) = st_out s /\ st_sink (touch E s n) = st_sink s.
+Lemma touch_log E s : st_log (touch E s) = st_log s /\ st_out (touch E s) = st_out s /\ st_sink (touch E s) = st_sink s.
 Proof.
-  unfold touch. destruct (negb (is_osfile (e_mode E)) && any_cmd (st_outs s)); cbn [st_outs set_overlap];
+  unfold touch. destruct (negb (is_osfile (e_mode E)) && any_active (st_outs s)); cbn [st_outs set_overlap];
   match goal with |- context [if ?c then set_unmod _ else _] => destruct c end; cbn; auto.
 Qed.
 
@@ -39,7 +39,7 @@ Qed.
 Lemma flush_stdout_log E s : st_log (fst (flush_stdout E s)) = st_log s /\ flushed E (fst (flush_stdout E s)).
 Proof.
   unfold flush_stdout, flushed. destruct (e_mode E); cbn [fst]; auto.
-  destruct (touch_log E s 0%nat) as (Hl & _). destruct (bw_flush _ _) as [[w k] ok] eqn:Ef. cbn [fst st_log set_out st_out].
+  destruct (touch_log E s) as (Hl & _). destruct (bw_flush _ _) as [[w k] ok] eqn:Ef. cbn [fst st_log set_out st_out].
   split; auto. eapply bw_flush_flushed; eauto.
 Qed.
 
@@ -48,8 +48,8 @@ Proof. intros _. apply flush_stdout_log. Qed.
 
 Lemma write_stdout_ext E s ps : ext s (fst (write_stdout E s ps)).
 Proof.
-  unfold write_stdout. destruct (touch_log E s (length (concat ps))) as (Hl & _).
-  eapply ext_trans; [apply (ext_same s (touch E s (length (concat ps)))); auto|].
+  unfold write_stdout. destruct (touch_log E s) as (Hl & _).
+  eapply ext_trans; [apply (ext_same s (touch E s)); auto|].
   eapply ext_trans; [apply (ext_add_log _ (EvWrite WStdout (concat ps))); exact I|].
   apply ext_same. destruct (e_mode E); cbv beta iota.
   - destruct (write_pieces_direct _ _). cbn. auto.
@@ -64,14 +64,11 @@ Proof.
   apply ext_same. destruct (e_mode E); cbv beta iota.
   - destruct (sink_write _ _) as [[? ?] ?]. cbn. auto.
   - destruct cg; cbn [fst]; auto. destruct (sink_write _ _) as [[? ?] ?]. cbn [fst set_out st_log]. auto.
-  - destruct cg; cbn [fst set_unmod st_log]; auto. match goal with |- context [if ?c then set_unmod ?x else ?x] => destruct c end; destruct (bw_read_from _ _ _ _) as [[? ?] ?]; cbn [fst set_out st_log set_unmod]; auto.
+  - destruct cg; cbn [fst set_unmod st_log]; auto. match goal with |- context [if ?c then set_unmod ?x else ?x] => destruct c end; destruct (bw_write _ _ _ _) as [[? ?] ?]; cbn [fst set_out st_log set_unmod]; auto.
 Qed.
 
 Lemma child_eof_ext E s cg : ext s (fst (child_eof E s cg)).
-Proof.
-  unfold child_eof. apply ext_same. destruct (e_mode E); cbv beta iota; cbn [fst]; auto.
-  destruct cg; cbn [fst]; auto. destruct (bw_read_from _ _ _ _) as [[? ?] ?]. cbn [fst set_out st_log]. auto.
-Qed.
+Proof. apply ext_refl. Qed.
 
 Lemma start_proc_ext E s c : flushed E s -> ext s (fst (start_proc E s c)).
 Proof.
@@ -221,8 +218,7 @@ Proof.
     + destruct (alookup n (st_outs s)) as [os|]; [|apply ext_same; auto].
       pose proof (close_ostream_ext E (set_outs s (aremove n (st_outs s))) n os) as H.
       destruct (close_ostream _ _ _ _) as [[s1 code] err]. cbn [fst] in *.
-      eapply ext_trans; [|apply ext_same; reflexivity]. eapply ext_trans; [|apply set_unmod_if_ext].
-      eapply ext_trans; [|apply if_print_errorf_ext].
+      eapply ext_trans; [|apply ext_same; reflexivity]. eapply ext_trans; [|apply if_print_errorf_ext].
       eapply ext_trans; [|apply ext_add_log; exact I]. eapply ext_trans; eauto. apply ext_same; auto.
   - destruct (alookup n (st_outs s)) as [os|]; cbn [fst].
     + apply (ext_trans _ (flush_named E s n os)); [apply flush_named_ext|apply ext_same; auto].
